@@ -76,13 +76,14 @@ def _seq(x):
 
 
 class Rendered:
-    __slots__ = ("text", "item_line", "line_item", "use_pos", "def_name_pos", "yield_line")
+    __slots__ = ("text", "item_line", "line_item", "use_pos", "def_name_pos", "yield_line", "probe_pos")
 
     def __init__(self):
         self.text = ""
         self.item_line = {}     # idx (1-based) -> 1-based line of the def/assign line
         self.line_item = {}     # line -> idx
         self.use_pos = {}       # (idx, uk, ui) -> (line1, col_start, col_end)  [byte == utf16 here: ASCII]
+        self.probe_pos = {}     # where a CURSOR is on that usage when it differs from the recorded span (names inside one indirect string)
         self.def_name_pos = {}  # idx -> (line1, col_start, col_end) of the function name
         self.yield_line = {}    # idx -> 1-based line of the fixture's yield (generator fixtures only)
 
@@ -204,8 +205,12 @@ def render_module(uni, slot, module, style=None):
                 s = ",".join(ind)
                 col = len(head)
                 # the implementation maps every indirect name to the whole first-argument string
+                off = 0
                 for j, m in enumerate(ind):
                     r.use_pos[(idx, "i", j + 1)] = (len(lines) + 1, col + 1, col + 1 + len(s))
+                    if len(ind) > 1:
+                        r.probe_pos[(idx, "i", j + 1)] = (len(lines) + 1, col + 1 + off, col + 1 + off + len(m))
+                    off += len(m) + 1
                 vals = "[1]" if len(ind) == 1 else "[(%s)]" % ", ".join("1" for _ in ind)
                 lines.append(head + '"%s", %s, indirect=True)' % (s, vals))
             if marks:
